@@ -27,20 +27,26 @@ Proof. cbn. rewrite N.eqb_refl. reflexivity. Qed.
 
 (* ================================================================== the per-association invariant *)
 (* where the thread that won the Once is inside doShutdown, and what is true of the data there *)
+(* the monitor's context is cancelled unless the monitor never registered its cancel function (it then returns
+   as soon as it takes hbMu, because pConn.shutdown is closed) *)
+Definition hb_cancelled (a : assoc) : Prop := a_hbreg a = true -> cclosed (a_hbc a) = true.
+
 Definition Body (sess : list N) (a : assoc) (t : thr) : Prop :=
   match t_pc t with
   | 0 => a_del a = [] /\ a_store a = sess /\ cclosed (a_shut a) = false
   | 1 => a_del a = [] /\ a_store a = sess /\ cclosed (a_shut a) = true
-  | 2 => a_del a = [] /\ a_store a = sess /\ cclosed (a_shut a) = true /\ cclosed (a_hbc a) = true
+  | 2 => a_del a = [] /\ a_store a = sess /\ cclosed (a_shut a) = true /\ hb_cancelled a
   | 3 => exists x r, t_it t = x :: r /\ a_store a = x :: r /\ a_del a ++ x :: r = sess /\ cclosed (a_shut a) = true
-                     /\ cclosed (a_hbc a) = true
+                     /\ hb_cancelled a
   | 4 => exists x r d, t_it t = x :: r /\ a_store a = x :: r /\ a_del a = d ++ [x] /\ d ++ x :: r = sess
-                       /\ cclosed (a_shut a) = true /\ cclosed (a_hbc a) = true
-  | 5 | 6 => a_del a = sess /\ a_store a = [] /\ cclosed (a_shut a) = true /\ cclosed (a_hbc a) = true
-  | 7 => a_del a = sess /\ a_store a = [] /\ cclosed (a_shut a) = true /\ cclosed (a_hbc a) = true /\ a_sock a = true
+                       /\ cclosed (a_shut a) = true /\ hb_cancelled a
+  | 5 | 6 => a_del a = sess /\ a_store a = [] /\ cclosed (a_shut a) = true /\ hb_cancelled a
+  | 7 => a_del a = sess /\ a_store a = [] /\ cclosed (a_shut a) = true /\ hb_cancelled a /\ a_sock a = true
   | _ => False
   end.
 
+(* where each caller of Shutdown continues *)
+Definition once_ret (r : role) : nat := match r with RRd => 0 | RSel => 2 | RHb => 1 | RFst => 4 | _ => 0 end.
 Definition code_len (r : role) : nat := List.length (code (home r)).
 
 (* a thread executes doShutdown iff it is the one recorded by the Once; otherwise it is inside its own function *)
@@ -51,9 +57,9 @@ Definition fn_ok (a : assoc) (r : role) : Prop :=
 Definition Data (sess : list N) (a : assoc) : Prop :=
   match a_once a with
   | ONew => a_del a = [] /\ a_store a = sess /\ cclosed (a_shut a) = false
-  | ORun r0 => is_assoc_role r0 = true /\ t_st (get_thr a r0) = TRunning /\ t_ret (get_thr a r0) < code_len r0
+  | ORun r0 => is_assoc_role r0 = true /\ t_st (get_thr a r0) = TRunning /\ t_ret (get_thr a r0) = once_ret r0
                /\ Body sess a (get_thr a r0)
-  | ODone => a_del a = sess /\ a_store a = [] /\ cclosed (a_shut a) = true /\ cclosed (a_hbc a) = true /\ a_sock a = true
+  | ODone => a_del a = sess /\ a_store a = [] /\ cclosed (a_shut a) = true /\ hb_cancelled a /\ a_sock a = true
   end.
 
 (* connTimeout holds at most the one value the reader sends before it returns *)
@@ -61,8 +67,55 @@ Definition tmo_ok (a : assoc) : Prop :=
   cclosed (a_tmo a) = false /\ ccap (a_tmo a) = 1
   /\ (cbuf (a_tmo a) = [] \/ (t_fn (a_rd a) = FReader /\ t_pc (a_rd a) = 3)).
 
+(* a monitor that is past its start (in its select loop, calling Shutdown, or inside doShutdown) has registered *)
+Definition hb_ok (a : assoc) : Prop :=
+  (t_st (a_hb a) = TRunning ->
+   match t_fn (a_hb a) with
+   | FHb => (t_pc (a_hb a) = 1 \/ t_pc (a_hb a) = 2) -> a_hbreg a = true
+   | _ => a_hbreg a = true
+   end)
+  /\ (t_st (a_hb a) = TNotStarted -> t_fn (a_hb a) = FHb /\ t_pc (a_hb a) = 0).
+
+(* the connection exists for the node: NewPFCPConn has counted it (pConnsCreated.Add); phases of the accept
+   goroutine, as functions of its thread so that they stay folded while other threads step *)
+Definition crt_t (t : thr) : bool :=
+  match t_fn t with
+  | FDo => true
+  | FFirst => Nat.leb 1 (t_pc t) && Nat.leb (t_pc t) 6
+  | _ => false
+  end.
+(* before `go p.Serve()` *)
+Definition bg_t (t : thr) : bool :=
+  match t_fn t with
+  | FDo => true
+  | FFirst => Nat.leb (t_pc t) 4 || Nat.eqb (t_pc t) 7
+  | _ => false
+  end.
+(* before the first message is handled *)
+Definition early_t (t : thr) : bool :=
+  match t_fn t with
+  | FFirst => Nat.leb (t_pc t) 3 || Nat.eqb (t_pc t) 7
+  | _ => false
+  end.
+Arguments crt_t : simpl never.
+Arguments bg_t : simpl never.
+Arguments early_t : simpl never.
+Lemma early_bg t : early_t t = true -> bg_t t = true.
+Proof.
+  unfold early_t, bg_t. destruct (t_fn t); try discriminate.
+  destruct (t_pc t) as [|[|[|[|[|[|[|[|p]]]]]]]]; cbn; congruence.
+Qed.
+Definition crt (a : assoc) : bool := crt_t (a_fst a).
+Definition not_started (t : thr) : Prop := t_st t = TNotStarted \/ t_st t = TAbsent.
+(* before `go p.Serve()` only the accept goroutine works on the connection *)
+Definition life_ok (a : assoc) : Prop :=
+  (a_once a <> ONew -> crt_t (a_fst a) = true)
+  /\ (bg_t (a_fst a) = true -> not_started (a_rd a) /\ not_started (a_sel a) /\ not_started (a_hb a))
+  /\ (early_t (a_fst a) = true -> a_once a = ONew)
+  /\ (bg_t (a_fst a) = false -> crt_t (a_fst a) = true).
+
 Definition AInv (sess : list N) (a : assoc) : Prop :=
-  fn_ok a RRd /\ fn_ok a RSel /\ fn_ok a RHb /\ fn_ok a RFst /\ Data sess a /\ tmo_ok a.
+  fn_ok a RRd /\ fn_ok a RSel /\ fn_ok a RHb /\ fn_ok a RFst /\ Data sess a /\ tmo_ok a /\ hb_ok a /\ life_ok a.
 
 (* bookkeeping for "forgotten": what one step of an association thread does to pConnDone and pConns, and whether
    the association has reported its address (rep) *)
@@ -72,25 +125,104 @@ Definition rep (a : assoc) : bool :=
   match a_once a with ODone => true | ORun r0 => Nat.leb 6 (t_pc (get_thr a r0)) | ONew => false end.
 Definition delta (me : N) (r : role) (a : assoc) (nd nd' : node) (a2 : assoc) : Prop :=
   cbuf (n_pcd nd') = (if at_pc a r FDo 5 then cbuf (n_pcd nd) ++ [me] else cbuf (n_pcd nd))
-  /\ n_map nd' = (if at_pc a r FFirst 2 then me :: remove_all me (n_map nd) else n_map nd)
+  /\ n_map nd' = (if at_pc a r FFirst 1 || at_pc a r FFirst 3 then me :: remove_all me (n_map nd) else n_map nd)
+  /\ n_created nd' + (if crt a then 1 else 0) = n_created nd + (if crt a2 then 1 else 0)
+  /\ (crt a = true -> crt a2 = true)
+  /\ (n_busy nd' = true -> n_busy nd = true \/ n_lsock nd = false)
+  /\ (crt a = false -> crt a2 = true -> n_lsock nd = false)
   /\ rep a2 = (rep a || at_pc a r FDo 5)
   /\ (t_st (a_fst a) = TFinished -> t_st (a_fst a2) = TFinished).
 
+(* arithmetic leaves: closed comparisons by computation, the rest by lia on the goal alone (lia is slow on the
+   disjunctive hypotheses of the invariant) *)
+Ltac arith_leaf :=
+  match goal with
+  | |- (_ < _)%nat => idtac | |- (_ <= _)%nat => idtac | |- @eq nat _ _ => idtac
+  end;
+  solve [ assumption | apply Nat.ltb_lt; reflexivity | apply Nat.leb_le; reflexivity
+        | repeat match goal with H : _ |- _ => clear H end; simpl; lia ].
+
+(* redefined in TeardownInvFst.v: there the accept thread itself steps and its phase functions must compute *)
+Ltac phase_unfold := idtac.
+
+(* fn_ok of a thread that did not move, after the Once changed hands *)
+Ltac fnok_leaf :=
+  match goal with
+  | H : (t_fn ?t = FDo /\ _) \/ (t_fn ?t = _ /\ _ /\ _) |- (t_fn ?t = FDo /\ _) \/ _ =>
+    destruct H as [[? ?]|[? [? ?]]];
+    [ first [ discriminate | congruence | left; split; congruence ]
+    | right; repeat split; first [assumption | congruence | discriminate] ]
+  end.
+
+(* occupancy of connTimeout *)
+Ltac tmo_leaf :=
+  match goal with
+  | H : (cbuf _ = [] \/ _) |- (_ = [] \/ _) =>
+    destruct H as [?|[? ?]];
+    first [ discriminate | left; congruence | right; split; congruence | left; reflexivity ]
+  | H : (_ :: _ = [] \/ _) |- (_ = [] \/ _) =>
+    destruct H as [?|[? ?]];
+    first [ discriminate | left; congruence | right; split; congruence | left; reflexivity ]
+  end.
+
+(* forward chaining over the trivial implications of the invariant *)
+Ltac fwd :=
+  repeat match goal with
+         | H : true = true -> _ |- _ => specialize (H eq_refl)
+         | H : false = false -> _ |- _ => specialize (H eq_refl)
+         | H : ?P -> _, H' : ?P |- _ => specialize (H H')
+         | H : _ /\ _ |- _ => destruct H
+         end.
+
+(* goals about a thread that `go` has just started (its status is a match on the old status) *)
+Ltac status_leaf :=
+  match goal with
+  | |- context [match t_st ?t with _ => _ end] => idtac
+  | H : context [match t_st ?t with _ => _ end] |- _ => idtac
+  end;
+  intros;
+  repeat match goal with
+         | |- context [match t_st ?t with _ => _ end] => destruct (t_st t) eqn:?
+         | H : context [match t_st ?t with _ => _ end] |- _ => destruct (t_st t) eqn:?
+         end;
+  cbn in *; try discriminate;
+  repeat match goal with
+         | H : true = true -> _ |- _ => specialize (H eq_refl)
+         | H : ?x = ?x -> _ |- _ => specialize (H eq_refl)
+         | H : _ /\ _ |- _ => destruct H
+         end;
+  repeat match goal with
+         | H : t_fn ?t = _ |- _ => rewrite H in *; clear H
+         | H : t_pc ?t = _ |- _ => rewrite H in *; clear H
+         end;
+  solve [ assumption | congruence | intuition (try discriminate; try congruence) ].
+
 Ltac finish_inv :=
-  unfold AInv, fn_ok, Data, Body, tmo_ok, code_len, delta, rep, at_pc in *; cbn in *;
+  unfold delta in *; unfold AInv, fn_ok, Data, Body, tmo_ok, hb_ok, life_ok, not_started, hb_cancelled, crt, code_len, once_ret, rep, at_pc in *;
+  cbn in *; phase_unfold;
   repeat match goal with
          | H : _ /\ _ |- _ => destruct H
          | H : exists _, _ |- _ => destruct H
          | H : _ :: _ = _ :: _ |- _ => injection H; clear H; intros
          end; subst;
   repeat match goal with H : t_st ?t = _ |- context [t_st ?t] => rewrite H end;
+  try match goal with H : bg_t ?t = true -> _ |- _ => is_var t; destruct (bg_t t) eqn:? end;
+  try (exfalso; match goal with H : true = true -> _ /\ _ |- _ => clear - H; destruct (H eq_refl) as ([?|?] & [?|?] & [?|?]); discriminate end);
   repeat match goal with |- context [match ?d with DRelease => _ | DSetup => _ | DOther => _ end] => is_var d; destruct d end;
   repeat split;
-  first [ assumption | reflexivity | discriminate | congruence | lia | tauto
+  first [ assumption | reflexivity | discriminate | congruence | arith_leaf | solve [intros; auto 3]
         | (left; split; congruence) | (right; split; congruence)
-        | (right; repeat split; first [congruence | lia]) | (left; repeat split; first [congruence | lia])
+        | (right; repeat split; first [congruence | arith_leaf]) | (left; repeat split; first [congruence | arith_leaf])
         | (rewrite ?orb_false_r, ?orb_true_r; reflexivity)
-        | solve [intuition (try discriminate; try congruence)]
+        | (let He := fresh in intros He; apply early_bg in He; congruence)
+        | fnok_leaf
+        | solve [intros; match goal with E : _ || _ = false |- _ => apply orb_false_elim in E; destruct E end;
+                 first [assumption | congruence | (left; assumption) | (right; assumption)]]
+        | solve [intros; first [discriminate | congruence | (left; assumption)]]
+        | tmo_leaf
+        | solve [intros ? [?|?]; first [discriminate | congruence]]
+        | solve [fwd; first [assumption | congruence | auto 3]]
+        | status_leaf
         | idtac ].
 
 Ltac close_rest :=
@@ -117,6 +249,15 @@ Ltac do_script T HT :=
     inv_ok; finish_inv; close_rest
   end.
 
+(* a step of another thread changed nothing the winner of the Once relies on, at whichever pc the winner is *)
+Ltac close_pc :=
+  try match goal with
+      | H : match t_pc ?t with _ => _ end |- match t_pc ?t with _ => _ end =>
+        destruct (t_pc t) as [|[|[|[|[|[|[|[|?]]]]]]]]; cbn in *; try assumption;
+        repeat match goal with H : _ /\ _ |- _ => destruct H | H : exists _, _ |- _ => destruct H end;
+        solve [congruence | exfalso; assumption]
+      end.
+
 (* the thread T runs its own function *)
 Ltac home_script T HT :=
   let rst := fresh "rst" in let rfn := fresh "rfn" in let rpc := fresh "rpc" in
@@ -127,9 +268,9 @@ Ltac home_script T HT :=
   match goal with
   | H : thread_step _ _ _ _ _ _ = _ |- _ =>
     unfold thread_step in H; cbn in H; destruct rst; try discriminate H;
-    do 6 (try destruct rpc as [|rpc]); cbn in H; try discriminate H;
+    do 8 (try destruct rpc as [|rpc]); cbn in H; try discriminate H;
     unfold ch_close, ch_send, ch_cancel, ch_recv in H;
-    inv_ok; finish_inv
+    inv_ok; finish_inv; close_pc
   end.
 
 
@@ -138,6 +279,7 @@ Ltac home_script T HT :=
 Definition node_frame (nd nd' : node) : Prop :=
   (cbuf (n_ctx nd) = [] -> n_ctx nd' = n_ctx nd) /\ n_done nd' = n_done nd /\ n_thr nd' = n_thr nd /\ n_stop nd' = n_stop nd
   /\ n_main nd' = n_main nd /\ n_exit nd' = n_exit nd /\ n_lsock nd' = n_lsock nd
+  /\ n_npd nd' = n_npd nd /\ n_npdnil nd' = n_npdnil nd /\ n_ended nd' = n_ended nd /\ n_peers nd' = n_peers nd
   /\ cclosed (n_pcd nd') = cclosed (n_pcd nd) /\ ccap (n_pcd nd') = ccap (n_pcd nd).
 
 (* any thread T of the association, result Panic: only the send on a closed pConnDone survives *)
